@@ -94,6 +94,10 @@ def kmsg_path_ignores_silencing(ctx):
 
 
 def run(ctx):
+    from .C06 import action_context_is_replaced_whole
+    action_context_is_replaced_whole(ctx, "C17")
+    from .C03 import kernel_kill_counts_only_a_populated_victim
+    kernel_kill_counts_only_a_populated_victim(ctx, "C17")
     uuid_generator_keeps_state(ctx)
     pg_scan_sampling_tick(ctx, "C17")
     saved_context_is_a_copy(ctx, "C17")
